@@ -20,6 +20,14 @@ def segStep (s : St) : List String → St × String
       let r := recvF (fun f => bad.contains f) s.buf bs
       ({ s with buf := r.1 }, s!"up:{showFrames r.2.1};buf:{Hex.render r.1};raised:{r.2.2}")
     | none => (s, "bad-op")
+  | ["recvc", cl, h] =>
+    -- receive where handling one of the frames `cl` closes the connection re-entrantly
+    let closing : List Bytes := (cl.splitOn "+").filterMap Hex.toBytes?
+    match (if h == "-" then some [] else Hex.toBytes? h) with
+    | some bs =>
+      let r := recvC (fun f => closing.contains f) s.buf bs
+      ({ s with buf := r.1 }, s!"up:{showFrames r.2.1};buf:{Hex.render r.1};closed:{r.2.2}")
+    | none => (s, "bad-op")
   | ["send", h] =>
     match Hex.toBytes? h with
     | some bs =>
